@@ -317,7 +317,9 @@ fn sweep(ctx: &Ctx, cfg: &Config, lo: u32, hi: u32) {
 /// A5=1 -> no kempston/mouse, A1=1 -> no paging) read at every T of the frame.
 fn floating_bus(ctx: &Ctx, m128: bool, shadow: bool) {
     let sp = spec(m128);
-    let port = 0x40FFu16;
+    // 80FF: odd (not ULA), A15=1 (no paging), A14=0 and A1=1 (not AY), A5=1 (no Kempston devices),
+    // high byte in uncontended memory so the sampling instant sweeps every T
+    let port = 0x80FFu16;
     let frame = sp.frame as usize;
     let chunks = 32usize;
     par_for(chunks, 1, |c| {
@@ -336,6 +338,7 @@ fn floating_bus(ctx: &Ctx, m128: bool, shadow: bool) {
         rig::poke(&mut e, 0x4000, &b5);
         let shown = if shadow { 7 } else { 5 };
         let mut hits_per_line = vec![0u32; 192];
+        let mut seen_per_line: Vec<std::collections::BTreeSet<u8>> = vec![std::collections::BTreeSet::new(); 192];
         for t in (c * frame / chunks)..((c + 1) * frame / chunks) {
             e.verif_set_frame_clocks(t);
             let got = rig::cpu_in(&mut e, CODE, port);
@@ -348,6 +351,18 @@ fn floating_bus(ctx: &Ctx, m128: bool, shadow: bool) {
             let x = if rel >= 0 { rel % sp.line as i64 } else { -1 };
             let in_fetch_strict = line >= 0 && line < 192 && x >= 8 && x < 128 - 8;
             let outside_strict = rel < -8 || line >= 192 && !(line == 192 && x < 8) || (line >= 0 && line < 192 && x >= 128 + 8 && x < sp.line as i64 - 8);
+            // bytes seen anywhere from 8 T before to 8 T after the line's fetch window count for the
+            // "every fetched byte becomes visible" clause
+            {
+                let rel2 = ts + 8 - sp.first_pixel as i64;
+                if rel2 >= 0 {
+                    let l2 = (rel2 / sp.line as i64) as usize;
+                    let x2 = rel2 % sp.line as i64;
+                    if l2 < 192 && x2 < 128 + 16 && got != 0xFF {
+                        seen_per_line[l2].insert(got);
+                    }
+                }
+            }
             if outside_strict && got != 0xFF {
                 ctx.violation(
                     &format!("C07:floating-bus:not-FF-outside-fetch:{}", if m128 { "128k" } else { "48k" }),
@@ -362,6 +377,7 @@ fn floating_bus(ctx: &Ctx, m128: bool, shadow: bool) {
                 let valid: Vec<u8> = (0..32).map(|k| code(shown, bm + k)).chain((0..32).map(|k| code(shown, at + k))).collect();
                 if valid.contains(&got) {
                     hits_per_line[y] += 1;
+                    seen_per_line[y].insert(got);
                 } else {
                     let other = if shown == 5 { 7 } else { 5 };
                     let from_other: Vec<u8> = (0..32).map(|k| code(other, bm + k)).chain((0..32).map(|k| code(other, at + k))).collect();
@@ -380,6 +396,20 @@ fn floating_bus(ctx: &Ctx, m128: bool, shadow: bool) {
         let t_hi = (c + 1) * frame / chunks;
         for y in 0..192usize {
             let l0 = sp.first_pixel as usize + y * sp.line as usize;
+            if l0 >= t_lo + 24 && l0 + 128 + 24 < t_hi {
+                // every bitmap and attribute byte of the line is fetched once per line, so every one of
+                // them must be seen by some read inside the window (reads up to 8 T outside the window edges count: guard band)
+                let bm = ((y & 0xC0) << 5) | ((y & 7) << 8) | ((y & 0x38) << 2);
+                let at = 0x1800 + (y >> 3) * 32;
+                let missing: Vec<usize> = (0..32).filter(|k| !seen_per_line[y].contains(&code(shown, bm + k)) || !seen_per_line[y].contains(&code(shown, at + k))).collect();
+                if !missing.is_empty() && hits_per_line[y] != 0 {
+                    ctx.violation(
+                        &format!("C07:floating-bus:fetched-bytes-never-visible:{}", if m128 { "128k" } else { "48k" }),
+                        &format!("picture line {}: the display/attribute bytes of columns {:?} are fetched by the ULA but no unclaimed-port read at any T of the line returned them", y, missing),
+                        json!({"kind":"floating","m128":m128,"shadow":shadow,"t":l0}),
+                    );
+                }
+            }
             if l0 >= t_lo + 16 && l0 + 128 + 16 < t_hi && hits_per_line[y] == 0 {
                 ctx.violation(
                     &format!("C07:floating-bus:never-shows-display-bytes:{}", if m128 { "128k" } else { "48k" }),
